@@ -345,7 +345,7 @@ func fitsCheck(l *mc.Local, sub, t string, h hints, base, res result, baseDesc s
 		return
 	}
 	l.Count("fits_obligations", 1)
-	chk.Violation("C02/fits-but-refused", fmt.Sprintf("text %s: the call %s returns a %s symbol, which the hints%s admit, but the call with these hints fails: %s", show(t), baseDesc, base.sym, h, clip(res.errText)),
+	chk.Violation("C02/fits-but-refused/"+errClassText(res.errText), fmt.Sprintf("text %s: the call %s returns a %s symbol, which the hints%s admit, but the call with these hints fails: %s", show(t), baseDesc, base.sym, h, clip(res.errText)),
 		rcase{sub, t, show(t), h, lvMatrix})
 }
 
@@ -414,8 +414,7 @@ var runTypes = []struct{ name, ch string }{
 // encodeSize is the light call used only to LOCATE the capacity boundaries (which inputs to
 // enumerate); it is not an oracle.
 func encodeSize(l *mc.Local, t string, h hints) int {
-	p := prescreen(t, h)
-	if p.avail && p.livelock {
+	if isLivelock(l, t, h, prescreen(t, h)) {
 		return -2
 	}
 	shape, min, max := h.args()
